@@ -283,13 +283,35 @@ func c17Normalize(msg string, repl map[string]string) string {
 	if i := strings.Index(msg, " is not in std"); i >= 0 {
 		msg = msg[:i+len(" is not in std")]
 	}
+	msg = c17KeywordRE.ReplaceAllString(msg, "unexpected keyword KW")
 	return identRE.ReplaceAllStringFunc(msg, func(w string) string {
+		if c17MessageWords[w] {
+			return w
+		}
 		if r, ok := repl[w]; ok {
 			return r
 		}
 		return w
 	})
 }
+
+var c17KeywordRE = regexp.MustCompile(`unexpected keyword \w+`)
+
+// c17MessageWords are lower-case words of compiler messages and of the templates'
+// own code; a grammar symbol that happens to have such a name (a nonterminal
+// called "type" or "field") must not turn them into placeholders.
+var c17MessageWords = func() map[string]bool {
+	m := map[string]bool{}
+	for _, w := range strings.Fields(`type field method value has no or of in as is not used and declared undefined cannot use func
+		int string expected unexpected keyword name syntax error package std missing return variable argument arguments call to
+		enough too many have want len stack sym offset endoffset with for on at by a an the than after before found assignment
+		mismatch struct interface map chan const var range select switch case default go defer import fallthrough goto continue
+		break if else nil true false lexer parser token stream listener node rule state action symbol next input source ok err
+		label defined redeclared block this other see previous declaration statement expression operator newline comma`) {
+		m[w] = true
+	}
+	return m
+}()
 
 func init() {
 	fw.Register(&fw.Check{
@@ -389,6 +411,9 @@ func c17Generate(c *fw.Ctx, j, t int, name string, sigPrefix string, force map[s
 		if r.Intn(12) == 0 {
 			cfg.NoParser = true
 		}
+		// Mid-rule actions crash the Bison export (reported from the earlier
+		// attempts); the last attempts avoid them so that the vector gets a package.
+		cfg.NoMidRule = attempt >= 3
 		g := featgram.New(r, name, cfg)
 		files := map[string]string{"grammar.tm": g.Text}
 		c.Note(files)
@@ -409,7 +434,12 @@ func c17Generate(c *fw.Ctx, j, t int, name string, sigPrefix string, force map[s
 			if strings.Contains(so, "\tcompiled\n") {
 				phase = "generate"
 			}
-			c.Violate(sigPrefix+phase+"/process-died/"+c17CrashSkeleton(se),
+			if phase == "compile" && sigPrefix == "nocompile:" {
+				// the caller's property starts after a successful compilation
+				c.Count("compile_process_died:"+c17CrashSkeleton(se), 1)
+				continue
+			}
+			c.Violate(strings.TrimPrefix(sigPrefix, "nocompile:")+phase+"/process-died/"+c17CrashSkeleton(se),
 				fmt.Sprintf("the process running compiler.Compile + gen.Generate died in phase "+phase+" (%v)\noptions: %s\nfeatures: %s\nstderr:\n%s",
 					herr, c17VecString(vec), strings.Join(g.Features, ","), tailString(se, 3000)), files)
 			continue
@@ -424,7 +454,7 @@ func c17Generate(c *fw.Ctx, j, t int, name string, sigPrefix string, force map[s
 		}
 		var pkg *genrun.Pkg
 		var cerr, gerr error
-		ok := c.Guard(sigPrefix+"generate", files, func() {
+		ok := c.Guard(strings.TrimPrefix(sigPrefix, "nocompile:")+"generate", files, func() {
 			pkg, cerr, gerr = genrun.GenerateNamed(name, name+".tm", g.Text)
 		})
 		if !ok {
@@ -441,13 +471,13 @@ func c17Generate(c *fw.Ctx, j, t int, name string, sigPrefix string, force map[s
 				}
 			} else {
 				// the helper accepted what the in-process compiler rejects
-				c.Violate(sigPrefix+"compile-verdict-differs-between-processes", cerr.Error(), files)
+				c.Violate(strings.TrimPrefix(sigPrefix, "nocompile:")+"compile-verdict-differs-between-processes", cerr.Error(), files)
 			}
 			continue
 		}
 		c.Count("grammars_accepted", 1)
 		if gerr != nil {
-			c.Violate(sigPrefix+"generate-error/"+fw.Skeleton(gerr.Error()),
+			c.Violate(strings.TrimPrefix(sigPrefix, "nocompile:")+"generate-error/"+fw.Skeleton(gerr.Error()),
 				"compiler.Compile accepted the grammar but gen.Generate failed: "+gerr.Error()+"\noptions: "+c17VecString(vec), files)
 			return nil
 		}
@@ -582,6 +612,9 @@ func c17BuildAndJudge(c *fw.Ctx, pkgs []*c17Pkg, vet bool) map[string]bool {
 				continue
 			}
 			seen[sig] = true
+			if f := os.Getenv("VERIF_C17_ONLYSIG"); f != "" && !strings.Contains(sig, f) {
+				continue // development aid: look at one signature at a time
+			}
 			nsig++
 			if nsig > 6 {
 				c.Count("diagnostics_beyond_6_per_package", 1)
